@@ -27,7 +27,8 @@ from ..sources import FailingTable, freeze
 ID = 'C18'
 LEVEL = 'model_checking'
 ENGINE = 'E1 stateless history explorer on live petl views + private temp directories'
-RULE = ('events open/next/drop(i)/dropview on <=2 iterators (all interleavings) or 3 (deviation-bounded); '
+RULE = ('events open/next/drop(i)/dropview on <=2 iterators (all interleavings) or 3 (deviation-bounded; with the '
+        'open/next alphabet alone up to 2 mid-pass switches, 3 thorough); '
         'configuration = (operator, nrows, buffersize, cache, reverse, failing source position, warm start, '
         'config default); node = event history; invariant evaluated in every node. A node is non-trivial when '
         'chunk/spill files exist on disk in it or when everything has been released after files had existed')
@@ -87,6 +88,8 @@ OPS = OrderedDict([
     ('sort', lambda t, u, kw: etl.sort(t, 'k', **kw)),
     ('sort(reverse)', lambda t, u, kw: etl.sort(t, 'k', reverse=True, **kw)),
     ('sort(lexical)', lambda t, u, kw: etl.sort(t, **kw)),
+    # key on the last field: the key order differs from the native order of whole rows
+    ('sort(x)', lambda t, u, kw: etl.sort(t, 'x', **kw)),
     ('mergesort', lambda t, u, kw: etl.mergesort(t, u['same'], key='k', **kw)),
     ('join', lambda t, u, kw: etl.join(t, u['g2'], key='k', **kw)),
     ('leftjoin', lambda t, u, kw: etl.leftjoin(t, u['g2'], key='k', **kw)),
@@ -237,19 +240,25 @@ class Harness(object):
         last = w['last']
         cost = 1 if self._mid(w, last) else 0
         out = []
+        # 'alphabet': 'opennext' keeps every reference alive until the history ends (three-iterator schedules over
+        # the cached paths are about what the SURVIVING iterators yield; releases are covered by the other configs)
+        drops = self.cfg.get('alphabet') != 'opennext'
         if last is not None and last in w['its']:
             if not w['done'][last]:
                 out.append((('next', last), 0))
-            out.append((('drop', last), 0))
+            if drops:
+                out.append((('drop', last), 0))
         for i in sorted(w['its']):
             if i != last:
                 if not w['done'][i]:
                     out.append((('next', i), cost))
-                out.append((('drop', i), cost))
+                if drops:
+                    out.append((('drop', i), cost))
         if w['view'] is not None:
             if w['opened'] < self.k:
                 out.append((('open', w['opened']), cost))
-            out.append((('dropview', -1), cost))
+            if drops:
+                out.append((('dropview', -1), cost))
         return out
 
     def apply(self, w, ev):
@@ -260,7 +269,7 @@ class Harness(object):
                 obs = ('opened',)
             except Exception as e:
                 w['its'][i] = iter(())
-                obs = ('exc-at-iter', type(e).__name__, str(e)[:80])
+                obs = ('exc-at-iter', type(e).__name__, env.excmsg(e))
             w['pos'][i] = 0
             w['done'][i] = False
             w['opened'] += 1
@@ -372,9 +381,23 @@ def _cfgs(tier):
                         'bound': 1})
             out.append({'op': 'sort', 'n': 2, 'b': 1, 'cache': cache, 'fail': None, 'k': 3, 'warm': 'cold',
                         'bound': 0})
+    # three iterators over the cached paths, open/next only (every reference stays alive): an iterator obtained from
+    # the file cache while another one, opened before anything was cached, is still to start (and will clear the
+    # cache), and a third finishes or goes on - what each of them yields must not depend on the other two
+    for name in ('sort(x)', 'sort(reverse)'):
+        for b in (1, 2):
+            for cache in (True, False):
+                out.append({'op': name, 'n': 2, 'b': b, 'cache': cache, 'fail': None, 'k': 3, 'warm': 'cold',
+                            'bound': 2 if quick else 3, 'alphabet': 'opennext'})
+        if not quick:
+            out.append({'op': name, 'n': 3, 'b': 2, 'cache': True, 'fail': None, 'k': 3, 'warm': 'cold',
+                        'bound': 2, 'alphabet': 'opennext'})
+    for name in (() if quick else ('join', 'distinct', 'aggregate(multi)', 'mergesort', 'complement', 'unique')):
+        out.append({'op': name, 'n': 2, 'b': 1, 'cache': True, 'fail': None, 'k': 3, 'warm': 'cold',
+                    'bound': 2, 'alphabet': 'opennext', 'cfgdefault': False})
     # every other sort-backed operator: explicit buffersize=1, and via the config default
     for name in OPS:
-        if name in ('sort', 'sort(reverse)'):
+        if name in ('sort', 'sort(reverse)', 'sort(x)'):
             continue
         for cfgdefault in (False, True):
             if name.startswith('fromdicts') and cfgdefault:
@@ -410,7 +433,9 @@ def cost(item):
     c = (item['n'] + 1) ** 3 * (8 if item['k'] == 3 else 1) * {None: 8, 0: 1, 1: 4}.get(item['bound'], 8)
     if item.get('fail') is not None:
         c /= 4
-    if item['op'] not in ('sort', 'sort(reverse)', 'sort(lexical)'):
+    if item.get('alphabet') == 'opennext':
+        c /= 40
+    if item['op'] not in ('sort', 'sort(reverse)', 'sort(lexical)', 'sort(x)'):
         c *= 6
     return c
 
